@@ -144,6 +144,20 @@ func (w *writer) Delete(rs *segment.RewriteSegment) (*writer, *reader, error) {
 		return nwrt, nil, nil
 	}
 
+	// When the newest message is deleted, the survivors become a plain reader segment and an empty
+	// segment at nextOffset takes over as the writer. That segment is created before the files are
+	// swapped: a crash in between must not let the next offset move backwards.
+	nextOffset, nextTime := w.index.getNext()
+	tailDeleted := rs.DeletedMessages[len(rs.DeletedMessages)-1].Offset == w.index.getLastOffset()
+	var newHead *writer
+	if tailDeleted {
+		nwrt, err := openWriter(w.segment.NewAt(nextOffset), w.params, w.version, nextTime)
+		if err != nil {
+			return nil, nil, err
+		}
+		newHead = nwrt
+	}
+
 	nseg := rs.GetNewSegment()
 	if nseg != w.segment {
 		// the starting offset of the new segment is different
@@ -155,12 +169,9 @@ func (w *writer) Delete(rs *segment.RewriteSegment) (*writer, *reader, error) {
 			return nil, nil, err
 		}
 
-		// first move the replacement
-		nextOffset, nextTime := w.index.getNext()
-		if rs.DeletedMessages[len(rs.DeletedMessages)-1].Offset == w.index.getLastOffset() {
+		if tailDeleted {
 			rdr := openReader(nseg, w.params, w.version, false)
-			wrt, err := openWriter(w.segment.NewAt(nextOffset), w.params, w.version, nextTime)
-			return wrt, rdr, err
+			return newHead, rdr, nil
 		} else {
 			wrt, err := openWriter(nseg, w.params, w.version, nextTime)
 			return wrt, nil, err
@@ -171,11 +182,9 @@ func (w *writer) Delete(rs *segment.RewriteSegment) (*writer, *reader, error) {
 		return nil, nil, err
 	}
 
-	nextOffset, nextTime := w.index.getNext()
-	if rs.DeletedMessages[len(rs.DeletedMessages)-1].Offset == w.index.getLastOffset() {
+	if tailDeleted {
 		rdr := openReader(w.segment, w.params, w.version, false)
-		wrt, err := openWriter(w.segment.NewAt(nextOffset), w.params, w.version, nextTime)
-		return wrt, rdr, err
+		return newHead, rdr, nil
 	} else {
 		wrt, err := openWriter(w.segment, w.params, w.version, nextTime)
 		return wrt, nil, err
